@@ -7,7 +7,7 @@ use std::collections::{BTreeMap, BTreeSet};
 use std::io::Write;
 use std::path::{Path, PathBuf};
 
-pub const NAMES: [&str; 10] = ["a", "b", "c", "data", "x", "é", "日本語", "my file", "Zz-9_", "long_name_aaaaaaaaaaaaaaaaaaaaaaaaaaaaaaaaaaaaaaaaaaaaaaaaaaaaaaaaaaaa"];
+pub const NAMES: [&str; 11] = ["a", "b", "c", "data", "x", "é", "日本語", "my file", "Zz-9_", "long_name_aaaaaaaaaaaaaaaaaaaaaaaaaaaaaaaaaaaaaaaaaaaaaaaaaaaaaaaaaaaa", "back\\slash"];
 /// the last two differ from earlier ones only by ASCII case (extensions are matched exactly)
 pub const EXTS: [&str; 7] = ["", "txt", "x", "bin", "la", "TXT", "X"];
 
@@ -171,7 +171,7 @@ pub struct ArchOpts {
     #[serde(default)]
     pub dotdot_mask: u16,
     /// Some(k): one directory also holds an entry that has no id - in the archives a member `backup.tar.x` (two
-    /// dots), on disk a file whose name is not UTF-8. Such entries are not part of the tree: no source lists them,
+    /// dots), on disk a file whose name (or only whose extension) is not UTF-8. Such entries are not part of the tree: no source lists them,
     /// and nothing else changes.
     #[serde(default)]
     pub junk: Option<u16>,
@@ -243,6 +243,10 @@ pub fn write_junk_on_disk(m: &Model, o: &ArchOpts, root: &Path) {
         if !dirs.is_empty() {
             let d = dirs[k as usize % dirs.len()];
             let _ = std::fs::write(root.join(rel_path(d, None)).join(std::ffi::OsStr::from_bytes(b"bad\xFFname.x")), b"junk");
+            // and one whose stem is fine but whose extension is not UTF-8 (it is not the extension-less file `blob`)
+            if k % 2 == 1 {
+                let _ = std::fs::write(root.join(rel_path(d, None)).join(std::ffi::OsStr::from_bytes(b"blob.\xFF\xFE")), b"junk");
+            }
         }
     }
 }
@@ -374,6 +378,30 @@ pub struct EmbeddedOwned {
     pub dirs: Vec<(String, Vec<(bool, String, String)>)>,
 }
 
+/// The same table written by hand in another order (RawEmbedded is a public struct; nothing says its lists are
+/// sorted the way the macro writes them).
+pub fn reorder_embedded(t: &mut EmbeddedOwned, order: u16) {
+    let o = order as usize;
+    if o % 2 == 1 {
+        t.files.reverse();
+        t.dirs.reverse();
+    }
+    if !t.files.is_empty() {
+        let n = t.files.len();
+        t.files.rotate_left((o / 2) % n);
+    }
+    if !t.dirs.is_empty() {
+        let n = t.dirs.len();
+        t.dirs.rotate_left((o / 2) % n);
+    }
+    for (_, entries) in t.dirs.iter_mut() {
+        if !entries.is_empty() {
+            let n = entries.len();
+            entries.rotate_left((o / 3) % n);
+        }
+    }
+}
+
 fn lit_str(e: &syn::Expr) -> Option<String> {
     match e {
         syn::Expr::Lit(l) => match &l.lit {
@@ -486,7 +514,7 @@ pub fn content_strategy() -> impl Strategy<Value = Vec<u8>> {
 }
 
 pub fn tree_strategy(max_entries: usize) -> impl Strategy<Value = TreeSpec> {
-    let name = prop_oneof![8 => 0u8..5, 3 => 5u8..9, 1 => Just(9u8)];
+    let name = prop_oneof![8 => 0u8..5, 3 => 5u8..9, 1 => Just(9u8), 1 => Just(10u8)];
     let leaf = prop_oneof![8 => (0u8..EXTS.len() as u8, content_strategy()).prop_map(|(ext, content)| Leaf::File { ext, content }), 1 => Just(Leaf::EmptyDir)];
     let entry = (prop::collection::vec(name, 1..5), leaf).prop_map(|(path, leaf)| EntrySpec { path, leaf });
     // some files get siblings with the same stem and another extension
